@@ -31,6 +31,7 @@ class Sim:
         self.select_calls = 0
         self.on_empty_return = None  # hook called when select is about to return empty
         self.performed = []
+        self.overshoot = 0.0  # a real select returns slightly after its deadline
 
     # -- the three module attributes ------------------------------------------------------
     def time(self):
@@ -51,7 +52,7 @@ class Sim:
             if nxt is None:
                 if deadline is None:
                     raise WouldBlockForever()
-                self.now = max(self.now, deadline)
+                self.now = max(self.now, deadline) + self.overshoot
                 if self.on_empty_return is not None:
                     self.on_empty_return()
                 return [], [], []
